@@ -141,6 +141,45 @@ def analyse_root(spec):
             klass = getattr(mod, spec["self_class"])
             pos = [{A.new_instance(klass)}] + pos
         A.add_root(o, pos, {})
+    elif spec["kind"] == "pipeline":
+        # a constructor-like first call on the sources, then method calls on what it returned:
+        #   {"kind": "pipeline", "name": .., "source": "designspace" | "ufo",
+        #    "first": {"module": .., "name": "Cls.factory", "args": ["SRC"]},
+        #    "then": [{"method": "m", "args": ["SRC"]}, ..]}
+        # The analysis is run twice: once with the first call only (to obtain the abstract objects it returns), then with
+        # the method roots added on exactly those objects.
+        if _DS is not None:
+            A.source_model(spec.get("source", "designspace"), (_DS,))
+
+        def lookup(modname, dotted):
+            o = importlib.import_module(modname)
+            for part in dotted.split("."):
+                o = getattr(o, part)
+            return o
+
+        def argsets(names):
+            return [{A.SRC} if a == "SRC" else {A.GS} if a == "GS" else set() for a in names]
+
+        f0 = spec["first"]
+        owner = lookup(f0["module"], f0["name"].rsplit(".", 1)[0]) if "." in f0["name"] else None
+        fn0 = lookup(f0["module"], f0["name"])
+        pos0 = argsets(f0.get("args", ["SRC"]))
+        if owner is not None and isinstance(owner, type) and isinstance(owner.__dict__.get(f0["name"].rsplit(".", 1)[1]), classmethod):
+            pos0 = [A.wrap_py(owner)] + pos0
+            fn0 = fn0.__func__
+        A.add_root(fn0, pos0, {})
+        A.solve()
+        fn0f = A.func_of(fn0)
+        results = set()
+        for ck, c in A.ctxs.items():
+            if c.func is fn0f:
+                results |= A.R[c.key]
+        results = {o for o in results if o.kind == "inst"}
+        for st in spec.get("then", []):
+            for o in sorted(results, key=lambda x: x.label):
+                k, v = A.class_attr(o.py, st["method"])
+                if k is not None:
+                    A.add_root(v, [{o}] + argsets(st.get("args", [])), {})
     init_sites = set()
     if spec["kind"] == "filter":
         # phase 1: construction only, to tell construction-time writes of `self` from call-time ones
